@@ -79,6 +79,17 @@ def fields():
             r = ext_unknown(v)
             return None if r is None else (d, r[1], r[2])
         f.append(('extension_type/' + d, 65536, ext_unknown_d))
+    for d in ('exts', 'exts_client', 'exts_server'):
+        def ext_twice(v, d=d):
+            r = ext_unknown(v)
+            if r is None:
+                return None
+            return (d, ext(v, b'\1\2\3') + ext(v, b''), 'ok 0 [(Unknown %d %s) (Unknown %d +0)]' % (v, S(4, 3), v))
+        f.append(('extension_type_twice/' + d, 65536, ext_twice))
+        def grease_pair(v, d=d):
+            a, b = 0x0a0a + 0x1010 * (v >> 4), 0x0a0a + 0x1010 * (v & 15)
+            return (d, ext(a, b'\7') + ext(b, b''), 'ok 0 [(Grease %d %s) (Grease %d +0)]' % (a, S(4, 1), b))
+        f.append(('grease_pair/' + d, 256, grease_pair))
     f.append(('named_group_ext', 65536, lambda v: ('ext', ext(10, b'\0\4' + u16(v) + u16(65535 - v)), 'ok 0 (EllipticCurves [%d %d])' % (v, 65535 - v))))
     f.append(('named_group_ec_params', 65536, lambda v: ('ec_params', b'\3' + u16(v), 'ok 0 (ECParams 3 (NamedGroup %d))' % v)))
     f.append(('named_groups_list', 65536, lambda v: ('named_groups', u16(v), 'ok 0 [%d]' % v)))
@@ -144,12 +155,12 @@ def run(ctx):
     ok = common.lean_step(ctx, MODULES)
     cases = []
     for name, dom, build in fields():
-        if dom == 256 or ctx.thorough or name.startswith('extension_type'):
+        if dom == 256 or ctx.thorough or (name.startswith('extension_type') and 'twice' not in name):
             vals = range(dom)
         elif '/n' in name:
-            vals = sorted(set(range(0, dom, 251)) | set(range(0, 64)) | {dom - 1, 0x7f12, 0x0a0a, 0xfafa, 0xfe00, 0xff01})
+            vals = sorted(set(range(0, dom, 251)) | set(range(0, 64)) | {dom - 1, 0x7f12, 0x0a0a, 0xfafa, 0xfe00, 0xff01} | set(common.interesting_values(dom)[::3]))
         else:
-            vals = sorted(set(range(0, dom, 13)) | set(range(0, 600)) | {dom - 1, dom - 2, 0x7f12, 0x0a0a, 0xfafa, 0xfe00, 0xfeff, 0xff01, 0xffce})
+            vals = sorted(set(range(0, dom, 13)) | set(range(0, 600)) | {dom - 1, dom - 2, 0x7f12, 0x0a0a, 0xfafa, 0xfe00, 0xfeff, 0xff01, 0xffce} | set(common.interesting_values(dom)))
         for v in vals:
             r = build(v)
             if r is None:
